@@ -72,6 +72,15 @@ def _(): return word_ind(lambda w: T.take(0, w) == Word.nil)
 def _(): return word_ind(lambda w: ForAll([k_], Implies(k_ >= T.wlen(w), T.drop(k_, w) == Word.nil)))
 
 
+@proof('letters', 'upper-card')
+def _():
+    from . import sets as S
+    ch = [SV(SET(ATOM), c) for c in T.upper()['chain']]; d = distinct_literals()
+    steps = [('empty', [], And(S.fin(ch[0]), S.card(ch[0]).z == 0))]
+    for k in range(1, len(ch)):
+        steps.append(('letter%d' % k, d + [S.fin(ch[k - 1]), S.card(ch[k - 1]).z == k - 1], And(S.fin(ch[k]), S.card(ch[k]).z == k)))
+    return steps
+
 @proof('dfa', 'dhat-closed')
 def _():
     D = SV(REC('DFA'), T._D); q = Const('q_', Atom)
@@ -1313,6 +1322,7 @@ def prove_lemmas(theories, timeout=10):
     """-> list of (name, status, log); a lemma may use the def/lfp/assumed axioms of the selected theories and earlier lemmas"""
     from .smt import discharge
     obls = []
+    for t in theories: T.LAZY.get(t, lambda: None)()        # theories whose constants are built on first use
     order = ['word', 'wordx', 'naming', 'dfa', 'nfa', 'dfax', 'nerode', 'quot', 'nfax', 'regexp', 'nfastar', 'thompson', 'gnfa', 'gnfadfa', 'tm', 'pda', 'pdax', 'cfg', 'iso', 'subset']
     ths = [t for t in order if t in theories] + [t for t in theories if t not in order]
     from .verify import DEPENDS
